@@ -455,7 +455,10 @@ class _JoinRun:
 
     def test(self, t: ast.AST) -> Optional[bool]:
         if isinstance(t, ast.Name):
-            return self.bools.get(t.id)
+            if t.id in self.bools:
+                return self.bools.get(t.id)
+            n_ = self.length(t.id)  # the truth value of a list is its being non-empty
+            return None if n_ is None else n_ > 0
         if isinstance(t, ast.UnaryOp) and isinstance(t.op, ast.Not):
             v = self.test(t.operand)
             return None if v is None else not v
